@@ -27,6 +27,12 @@ pub enum CertKind {
     /// not one of the seven kinds of the property's grid: a certificate *issued by* the pinned
     /// self-signed certificate (self-signed mode demands a byte-identical match)
     IssuedByPinned,
+    /// outside the grid too: the differently-roled client certificate followed, in the presented
+    /// chain, by an unrelated certificate that carries the role "operator" (the role of the session
+    /// is that of the *client* certificate)
+    ViewerThenOperatorInChain,
+    /// the role-less client certificate followed by an unrelated certificate with a role
+    RoleLessThenOperatorInChain,
 }
 
 pub const CERT_KINDS: [CertKind; 7] = [
@@ -83,6 +89,8 @@ fn certs_for(c: &Cell) -> Option<(&'static str, &'static str)> {
         (false, true, Expired) => ("ss_server_expired", "ss_server_expired"),
         (false, true, NotYetValid) => ("ss_server_future", "ss_server_future"),
         (true, true, IssuedByPinned) => ("ss_client", "cli_child_of_ss"),
+        (true, false, ViewerThenOperatorInChain) => ("ca_a", "cli_viewer+cli_operator"),
+        (true, false, RoleLessThenOperatorInChain) => ("ca_a", "cli_norole+cli_operator"),
         (false, true, IssuedByPinned) => ("ss_server", "srv_child_of_ss"),
         // the name is not part of the server endpoint's / self-signed mode's checks; roles are a
         // property of client certificates
@@ -99,12 +107,12 @@ pub fn ref_tls(c: &Cell) -> Option<Expectation> {
     }
     let version_ok = !c.min13 || c.peer != PeerVersions::Tls12Only;
     let cert_ok = match c.cert {
-        CertKind::Valid | CertKind::OtherRole => true,
-        CertKind::RoleLess => !(c.rodbus_is_server && c.authz),
+        CertKind::Valid | CertKind::OtherRole | CertKind::ViewerThenOperatorInChain => true,
+        CertKind::RoleLess | CertKind::RoleLessThenOperatorInChain => !(c.rodbus_is_server && c.authz),
         _ => false,
     };
     let role = if c.rodbus_is_server && c.authz && version_ok && cert_ok {
-        Some(if c.cert == CertKind::OtherRole { "viewer" } else { "operator" })
+        Some(if matches!(c.cert, CertKind::OtherRole | CertKind::ViewerThenOperatorInChain) { "viewer" } else { "operator" })
     } else {
         None
     };
@@ -448,7 +456,7 @@ pub fn check_c09(tier: &str) -> i32 {
         "C09",
         tier,
         "exploration",
-        "the whole configuration grid {min version 1.2, 1.3} x {authority, self-signed} x {with, without authorization} x {rodbus is client, server} x peer offers {TLS1.2 only, TLS1.3 only, both} x peer certificate {valid, wrong authority, wrong name, expired, not yet valid, role-less, differently roled} = 336 cells over real loopback sockets: the rodbus endpoint is built with the unmodified public API, the peer is an independent rustls endpoint with explicit protocol versions and a permissive verifier, so the verdict is rodbus' alone; admission is judged by an answered Modbus request, the negotiated version by the peer, the role by an authorization handler; cells that are not meaningful are listed as n/a; per server configuration two more peers send Modbus bytes instead of / in the middle of the handshake. distinct = distinct (cell, observation) pairs",
+        "the whole configuration grid {min version 1.2, 1.3} x {authority, self-signed} x {with, without authorization} x {rodbus is client, server} x peer offers {TLS1.2 only, TLS1.3 only, both} x peer certificate {valid, wrong authority, wrong name, expired, not yet valid, role-less, differently roled} = 336 cells over real loopback sockets: the rodbus endpoint is built with the unmodified public API, the peer is an independent rustls endpoint with explicit protocol versions and a permissive verifier, so the verdict is rodbus' alone; admission is judged by an answered Modbus request, the negotiated version by the peer, the role by an authorization handler; cells that are not meaningful are listed as n/a; per server configuration two more peers send Modbus bytes instead of / in the middle of the handshake; outside the grid: a certificate issued by the pinned self-signed certificate, and client chains in which an unrelated certificate carrying another role follows the client certificate. distinct = distinct (cell, observation) pairs",
     );
     let thorough = rep.thorough();
     let mut cells = all_cells(false);
@@ -460,6 +468,11 @@ pub fn check_c09(tier: &str) -> i32 {
         for peer in [PeerVersions::Tls12Only, PeerVersions::Tls13Only, PeerVersions::Both] {
             for authz in [false, true] {
                 cells.push(Cell { min13: false, self_signed: true, authz, rodbus_is_server, peer, cert: CertKind::IssuedByPinned, spawn: false });
+                if rodbus_is_server {
+                    for cert in [CertKind::ViewerThenOperatorInChain, CertKind::RoleLessThenOperatorInChain] {
+                        cells.push(Cell { min13: false, self_signed: false, authz, rodbus_is_server, peer, cert, spawn: false });
+                    }
+                }
             }
         }
     }
